@@ -326,7 +326,12 @@ func iniNeedsQuote(s string) bool {
 }
 
 func writeOption(writer io.Writer, optionName string, optionType reflect.Kind, optionKey string, optionValue string, commentOption bool, forceQuote bool) {
-	if forceQuote || (optionType == reflect.String && iniNeedsQuote(optionValue)) {
+	if optionKey != "" && iniNeedsQuote(optionKey) {
+		// A map key which cannot be written as is: quote the whole
+		// key:value entry, the reader splits it after unquoting
+		optionValue = strconv.Quote(optionKey + ":" + optionValue)
+		optionKey = ""
+	} else if forceQuote || (optionType == reflect.String && iniNeedsQuote(optionValue)) {
 		optionValue = strconv.Quote(optionValue)
 	}
 
@@ -599,7 +604,8 @@ func (i *IniParser) parse(ini *ini) error {
 					parts := strings.SplitN(inival.Value, ":", 2)
 
 					// only handle unquoting
-					if len(parts) == 2 && len(parts[1]) != 0 && parts[1][0] == '"' {
+					// (an entry which was quoted as a whole is taken literally)
+					if len(parts) == 2 && len(parts[1]) != 0 && parts[1][0] == '"' && !inival.Quoted {
 						if v, err := strconv.Unquote(parts[1]); err == nil {
 							parts[1] = v
 
